@@ -331,13 +331,50 @@ def optimum(assertions, target, is_min):
     return v.as_long() if z3.is_int_value(v) else None
 
 
-def f20_region(script):
-    """known finding F20: a worker under ResourceNonDelay / ResourceTasksDistance that has both an optional task's
-    interval (parked at -task number) and an unselected alternative (parked at a unique negative integer)"""
-    sorts = any(d["op"] == "constraint" and d["c"][0] in ("nonDelay", "distance") for d in script)
-    opt = any(d["op"] == "task" and d.get("optional") for d in script)
-    sel = any(d["op"] == "require" and d["res"][0] in ("select",) for d in script)
-    return sorts and opt and sel
+def parking_leak_region(script):
+    """Where an unscheduled optional task is parked (at -task number) or an unselected worker (at a "unique" negative
+    integer) depends on the declaration order.  In the usages recorded as findings F16, F18, F19, F20, F24 - and wherever
+    the user's own expressions read the times of an optional task - those parking instants reach feasibility or the
+    objective, so permuting declarations changes the answer.  Such scripts are not permuted (F20 is replayed as the
+    known finding of this property)."""
+    optional = {d["name"] for d in script if d["op"] == "task" and d.get("optional")}
+    if not optional:
+        return None
+
+    def mentions_optional(x):
+        if isinstance(x, str):
+            return x in optional
+        if isinstance(x, (list, tuple)):
+            return any(mentions_optional(y) for y in x)
+        return False
+
+    def reads_times(x):
+        """a raw expression / user indicator reading start, end or duration of an optional task"""
+        if isinstance(x, (list, tuple)):
+            if len(x) == 2 and x[0] in ("tstart", "tend", "tdur") and x[1] in optional:
+                return True
+            return any(reads_times(y) for y in x)
+        return False
+
+    sel = any(d["op"] == "require" and d["res"][0] in ("select", "cumul") for d in script)
+    for d in script:
+        if d["op"] == "constraint":
+            c = d["c"]
+            if c[0] in ("unorderedGroup", "orderedGroup", "scheduleN", "contiguous") and mentions_optional(c[1]):
+                return "F18"
+            if c[0] in ("loadBuffer", "unloadBuffer") and c[1] in optional:
+                return "F16"
+            if c[0] in ("nonDelay", "distance") and (sel or optional):
+                return "F20"
+            if c[0] == "interrupted":
+                return "F24"
+            if reads_times(c):
+                return "user expression over an optional task"
+        if d["op"] == "require" and d["task"] in optional and (d.get("delay_in", 0) or d.get("early_out", 0) or d.get("dynamic")):
+            return "F19"
+        if d["op"] == "indicator" and reads_times(d["i"]):
+            return "user expression over an optional task"
+    return None
 
 
 # ------------------------------------------------------------------------------ histories
@@ -491,8 +528,9 @@ def run_c14(script, rng, summary):
             return dict(v, mode="rename", renaming=ren, twin=script2)
         return None
     if mode == "permute":
-        if f20_region(script):
-            count(summary, "run_c14_skipped_known_F20_region")
+        region = parking_leak_region(script)
+        if region:
+            count(summary, "run_c14_permute_skipped_known_region:" + region)
             return None
         script2, cmap, what = permute_script(script, rng)
         if not what:
